@@ -93,6 +93,13 @@ CHECKS = {
   text="Random sets of 2..6 unambiguous pipelined commands with random outcomes (OK with/without text, NO/BAD with/without codes), answered in random order-preserving interleavings with unilateral EXISTS/EXPUNGE/FLAGS/PERMANENTFLAGS in between; state sequences around SELECT OK/NO/BAD, [CLOSED], UNSELECT/CLOSE, LOGOUT; tagged refusal of a synchronising literal with another command in flight; FETCH with '*' sets.",
   design_ref="DESIGN.md §3 C12",
   note="During a SELECT in progress the client may report either the old mailbox unchanged or no mailbox. Trusts the reference interpreter in checks/c12."),
+
+ "C18": dict(
+  category="exploration",
+  technique="runtime trace monitor: the client's output on the instrumented in-process connection is tokenised by the independent scanner and checked against the capability set the scripted server had advertised / enabled; the global ordered event log decides literal synchronisation (no payload byte before '+', none after a tagged refusal); race detector on",
+  text="Dialogues for 7 capability sets x string arguments from 16 classes in every command that takes strings x APPEND sizes around 4096 x SEARCH with non-ASCII text x four server reactions to synchronising literals ('+' at once, '+' after unrelated untagged data once the client is parked, tagged NO, tagged BAD), ending with a usability probe.",
+  design_ref="DESIGN.md §3 C18",
+  note="Capability sets are constant within a dialogue; UTF8=ACCEPT counts from the command after the ENABLED response."),
 }
 
 NOT_YET = "check not built yet in this round (planned in DESIGN.md §3; runtime monitoring applies)"
